@@ -55,7 +55,8 @@ class GeckoAsyncSpa(Observable):
         self.client_id = client_id
         self.descriptor = spa_descriptor
         self._taskman = taskman
-        self._event_handler: GeckoSpaEvent.CallBack = event_handler
+        self._client_event_handler: GeckoSpaEvent.CallBack = event_handler
+        self._disconnected = False
 
         self._con_lost: Optional[asyncio.Future] = None
         self._transport: Optional[asyncio.BaseTransport] = None
@@ -140,7 +141,16 @@ class GeckoAsyncSpa(Observable):
             )
             await self._event_handler(GeckoSpaEvent.ERROR_TOO_MANY_RF_ERRORS)
 
+    async def _event_handler(self, event: GeckoSpaEvent, **kwargs) -> None:
+        """Pass the event on to the client, unless this spa has been disconnected
+        in which case whatever is still running on its behalf stays silent"""
+        if self._disconnected:
+            _LOGGER.debug("Spa is disconnected, event %s dropped", event)
+            return
+        await self._client_event_handler(event, **kwargs)
+
     async def _connect(self) -> None:
+        self._disconnected = False
         loop = asyncio.get_running_loop()
         self._con_lost = loop.create_future()
 
@@ -373,6 +383,7 @@ class GeckoAsyncSpa(Observable):
         """Disconnect the spa from the async protocol"""
         self._is_connected = False
         await self._event_handler(GeckoSpaEvent.RUNNING_SPA_DISCONNECTED)
+        self._disconnected = True
         self.struct.reset()
         self._taskman.cancel_key_tasks("SPA")
         if self._protocol is not None:
